@@ -36,13 +36,14 @@ def testResultParams (f : FailInfo) : Bytes :=
   be16 12 ++ be32 f.function ++ be32 f.line ++ be32 f.code ++
     be32 (if f.code = Gen.FATAL_ERROR_NV_UNRECOVERABLE then Gen.TPM_RC_NV_UNINITIALIZED else Gen.TPM_RC_FAILURE)
 
-/-- GetCapability(TPM_PROPERTIES) parameters as coded (including the value word written when count = 0) -/
+/-- GetCapability(TPM_PROPERTIES) parameters: moreData, the capability, a list of at most one (property, value) pair.
+    A count of 0 gives the empty list (before fix 078aa7e the code appended the property twice to the empty list: 8 bytes the
+    response schema has no place for) -/
 def capParams (pt count : Nat) : Bytes :=
-  let count := if count > 0 then 1 else if pt > Gen.TPM_PT_FIRMWARE_VERSION_2 then 0 else count
+  let count := if count > 0 then 1 else 0
   let pt := if pt < Gen.TPM_PT_MANUFACTURER then Gen.TPM_PT_MANUFACTURER else pt
   let more : UInt8 := if pt < Gen.TPM_PT_FIRMWARE_VERSION_2 then 1 else 0
-  let v := if count > 0 then propValue pt else pt
-  [more] ++ be32 Gen.TPM_CAP_TPM_PROPERTIES ++ be32 count ++ be32 pt ++ be32 v
+  [more] ++ be32 Gen.TPM_CAP_TPM_PROPERTIES ++ be32 count ++ (if count > 0 then be32 pt ++ be32 (propValue pt) else [])
 
 /-- `TpmFailureMode` -/
 def respond (f : FailInfo) (req : Bytes) : Bytes :=
